@@ -477,8 +477,31 @@ func main() {
 		for _, name := range []string{"GetCardByID", "GetCardByIndex", "GetTimeProfile", "GetEvent", "SetEventIndex"} {
 			op := spec.OpByName(name)
 			base := ops.BaselineReply(op)
-			for _, asked := range u32alphabet {
-				for _, echoed := range u32alphabet {
+			// (asked, echoed) pairs: the 32-bit alphabet squared, plus numbers that are related without being
+			// equal - the two ways of writing one Wiegand-26 card (facility*100000+number vs facility<<16|number),
+			// decimal / hexadecimal readings of the same digits, byte-swapped and BCD forms
+			type pair struct{ asked, echoed uint32 }
+			pairs := []pair{}
+			for _, a := range u32alphabet {
+				for _, e := range u32alphabet {
+					pairs = append(pairs, pair{a, e})
+				}
+			}
+			for _, fc := range []uint32{0, 1, 100, 153, 255} {
+				for _, n := range []uint32{0, 1, 58399, 65535} {
+					dec, code := fc*100000+n, fc<<16|n
+					pairs = append(pairs, pair{dec, code}, pair{code, dec}, pair{dec, dec}, pair{code, code})
+				}
+			}
+			for _, v := range []uint32{8165538, 10058399, 12345678, 99999999} {
+				var hex, swapped uint32
+				fmt.Sscanf(fmt.Sprint(v), "%x", &hex) // the decimal digits read as hexadecimal
+				swapped = v>>24 | (v>>8)&0xff00 | (v<<8)&0xff0000 | v<<24
+				pairs = append(pairs, pair{v, hex}, pair{hex, v}, pair{v, swapped}, pair{swapped, v}, pair{v, v + 1}, pair{v, v - 1}, pair{v, v ^ 0x80000000})
+			}
+			for _, pr := range pairs {
+				asked, echoed := pr.asked, pr.echoed
+				{
 					vals := spec.Args{}
 					for k, v := range base {
 						vals[k] = v
